@@ -38,6 +38,22 @@ def reachable_functions(model, roots):
     return seen
 
 
+def _dynamic_callee(t):
+    """The callee is a value looked up at run time (an item of a mapping, the result of a call, compiled code):
+    what it runs is not known from the source, so it may be the user's code (e.g. the generated tracing function)."""
+    def literal_table(x):
+        # a module-level literal dispatch table of the package (folded constant) is not dynamic
+        return x[0] == "display" and isinstance(x[-1], tuple) and x[-1][:1] == ("<const>",)
+
+    if t[0] == "phi":
+        return any(_dynamic_callee(a) for a in t[1])
+    if t[0] in ("idx", "elem"):
+        return not literal_table(t[1])
+    if t[0] == "call":
+        return not (t[1][0] == "attr" and t[1][2] == "get" and literal_table(t[1][1]))
+    return False
+
+
 class UserCode:
     """May a function (transitively) call into user code?"""
 
@@ -54,6 +70,8 @@ class UserCode:
                     return True
                 t = flow.term(f, n)
                 if t[0] == "closure" or (t[0] == "param" and fi.parent is None and t[1] in ("func", "new_func")):
+                    return True
+                if _dynamic_callee(t):
                     return True
             if n.ast is not None and n.kind in ("stmt", "return", "test"):
                 for sub in ast.walk(n.ast) if not isinstance(n.ast, (ast.FunctionDef, ast.AsyncFunctionDef)) else []:
@@ -93,7 +111,7 @@ class UserCode:
                     for n in flow.cfg.nodes:
                         if n.stmt is st or (n.ast is not None and sub in list(ast.walk(n.ast)) if n.kind in ("stmt", "return", "test", "raise") and not isinstance(n.ast, (ast.FunctionDef, ast.AsyncFunctionDef, ast.ClassDef)) else False):
                             t = flow.term(f, n)
-                            if t[0] == "closure":
+                            if t[0] == "closure" or _dynamic_callee(t):
                                 return True
                             cf = fi_of_term(self.model, t)
                             if cf is not None and self.may(cf):
@@ -349,3 +367,29 @@ def ctxvar_only(run, model, rule="C12.ctxvar-only"):
         run.check(has, rule, res.fi.qual, "suspension state is acquired and given back through the context variable", "the wrapper does not keep its suspension state in the context variable (no acquire/give-back recognised)", res.fi.loc())
     if not bad:
         run.ok(rule, "module-level state", "%d module-level mutable object(s); none is used by code reachable from the wrappers at call time" % len(mutables))
+
+
+MEMOISERS = ("lru_cache", "cache", "cached_property", "singledispatch")
+
+
+def no_memo(run, model, rule="C12.no-memo"):
+    """Nothing in the package remembers results across calls (functools.lru_cache and friends).
+
+    A memoised helper hands the object computed for one call to a later call with an *equal* key: equal is not
+    identical (``1 == True``, equal tuples), and the first caller's object is shared by everybody afterwards.
+    """
+    for name, mod in sorted(model.modules.items()):
+        bad = []
+        for sub in ast.walk(mod.tree):
+            f = None
+            if isinstance(sub, ast.Attribute) and sub.attr in MEMOISERS and src_of(sub.value) in ("functools",):
+                f = sub
+            elif isinstance(sub, ast.Name) and sub.id in MEMOISERS and mod.imports.get(sub.id, "").startswith("functools."):
+                f = sub
+            if f is not None:
+                bad.append(f)
+        if bad:
+            for f in bad[:3]:
+                run.violation(rule, "%s:%s" % (name, src_of(f)), "`%s` remembers results across calls: a later call with an equal (not identical) key receives the object computed for an earlier call, and every caller shares it" % src_of(f), "%s/%s.py:%s" % ("icontract", name, f.lineno), None, src_of(f))
+        else:
+            run.ok(rule, name, "no memoisation (functools.lru_cache / cache / cached_property) anywhere in the module", "icontract/%s.py:1" % name)
